@@ -13,9 +13,9 @@ for d in sorted(glob.glob("/verif/seeded/C*-m*")):
 with open("/verif/seeded/SUMMARY.md", "w") as f:
     f.write("# Seeded changes kept under /verif/seeded\n\n"
             "Each directory holds `patch.diff` (applies to /repo's HEAD at the time it was stored), `demo.py` (exits 0 without, non-zero with the change) "
-            "and `meta.json`. `-m1/-m2` = first round (pinned tree + early fixes), `-m3/-m4` = second round (repaired HEAD, less obvious code paths), `-m5/-m6`, `-m7/-m8`, `-m9/-m10`, `-m11/-m12`, `-m13/-m14`, `-m15/-m16`, `-m17/-m18` = rounds three to nine. "
+            "and `meta.json`. `-m1/-m2` = first round (pinned tree + early fixes), `-m3/-m4` = second round (repaired HEAD, less obvious code paths), `-m5/-m6`, `-m7/-m8`, `-m9/-m10`, `-m11/-m12`, `-m13/-m14`, `-m15/-m16`, `-m17/-m18`, `-m19/-m20` = rounds three to ten. "
             "The last column is the result of the registered quick check(s) run with the patch applied to /repo (exit 1 + VIOLATION line = caught); "
-            "seeds that were missed at first were used to strengthen the checks and re-run (DESIGN.md 12.5-12.15).\n\n"
+            "seeds that were missed at first were used to strengthen the checks and re-run (DESIGN.md 12.5-12.16).\n\n"
             "| seed | change | needs | checks |\n|---|---|---|---|\n")
     for r in rows:
         f.write("| " + " | ".join(r) + " |\n")
